@@ -115,7 +115,12 @@ func cmdlineOK(name, val string) bool {
 	if !ok || name == "cfg" || name == "v" || name == "version" || name == "h" || name == "help" {
 		return false
 	}
-	switch fi.Kind {
+	return kindOK(fi.Kind, val)
+}
+
+// kindOK says whether a flag of the given kind takes the value (the parsers the flag package itself uses).
+func kindOK(kind, val string) bool {
+	switch kind {
 	case "bool":
 		_, err := strconv.ParseBool(val)
 		return err == nil
